@@ -305,8 +305,9 @@ type evil struct {
 	conn  *p2p.Connection
 	src   *node.Node
 	mode     string
-	calls    atomic.Int32
-	tampered atomic.Int32
+	calls     atomic.Int32
+	tampered  atomic.Int32
+	servedTip atomic.Bool
 }
 
 func newEvil(shard int, src *node.Node, mode string) (*evil, error) {
@@ -356,6 +357,9 @@ func newEvil(shard int, src *node.Node, mode string) (*evil, error) {
 			e.tampered.Add(1)
 		case "truncated":
 			blocks = blocks[:len(blocks)-1]
+		}
+		if mode != "truncated" && len(blocks) > 0 && bytes.Equal(blocks[len(blocks)-1].Header.ID, src.Tip().Header.ID) {
+			e.servedTip.Store(true) // the download completes: the tampered block will be processed
 		}
 		resp := &lsync.GetBlocksFromIDResponse{Blocks: blocks}
 		w.Write(resp.Encode())
@@ -465,93 +469,162 @@ func converge(k *mon.Case, r *rand.Rand, shard int) {
 		k.Inconclusive("peer-setup:" + err.Error())
 		return
 	}
+	wit, processed := syncAndJudge(k, a, b, remote, ev, mode, prefix, forkA, ahead, nv, finA, finalIDs, origTip, "")
+	// second failing fast sync with a higher common block (stale temp blocks of the first
+	// restore must not get in the way)
+	if processed && wit != nil {
+		cfgC := base
+		cfgC.GenesisTimestamp = a.Cfg.GenesisTimestamp
+		c2, err := node.New(cfgC)
+		if err == nil {
+			defer c2.Close()
+			okc := true
+			for h := uint32(1); h <= a.Tip().Header.Height && okc; h++ {
+				blk, err := a.Chain.DataAccess().GetBlockByHeight(h)
+				if err != nil || c2.Apply(node.CloneBlock(blk)) != nil {
+					okc = false
+				}
+			}
+			c2.GenHist = map[string]uint32{}
+			for key, v := range a.GenHist {
+				c2.GenHist[key] = v
+			}
+			for i := 0; i < 1+r.Intn(2) && okc; i++ {
+				blk, err := plain(a, r)
+				if err != nil || a.Apply(blk) != nil {
+					okc = false
+				}
+			}
+			ahead2 := 3 + r.Intn(2*nv-3+1)
+			for i := 0; i < ahead2 && okc; i++ {
+				blk, err := plain(c2, r)
+				if err != nil || c2.Apply(blk) != nil {
+					okc = false
+				}
+			}
+			if okc && c2.Tip().Header.Height > a.Tip().Header.Height {
+				ev2, err := newEvil(shard, c2, mode)
+				if err == nil {
+					defer ev2.conn.Stop() //nolint:errcheck
+					addrs, _ := ev2.conn.MultiAddress()
+					if len(addrs) > 0 {
+						if remote2, err := p2p.AddrInfoFromMultiAddr(addrs[0]); err == nil {
+							fin2 := a.Finalized()
+							ids2 := map[uint32][]byte{}
+							for h := uint32(0); h <= fin2; h++ {
+								if hd, err := a.Chain.DataAccess().GetBlockHeaderByHeight(h); err == nil {
+									ids2[h] = hd.ID
+								}
+							}
+							orig2 := append([]byte{}, a.Tip().Header.ID...)
+							k.Count("second_failing_syncs", 1)
+							tb, _ := a.Chain.DataAccess().GetTempBlocks()
+							k.Count(fmt.Sprintf("second_sync_first_fork_%d_temp_blocks_left_%d", forkA, len(tb)), 1)
+							syncAndJudge(k, a, c2, remote2, ev2, mode, int(a.Tip().Header.Height), 1, ahead2, nv, fin2, ids2, orig2, ":second-sync")
+						}
+					}
+				}
+			}
+		}
+	}
+	if wit != nil {
+		k.Sample(wit)
+	}
+}
+
+// syncAndJudge connects a to the remote peer, delivers b's tip from it and judges the outcome.
+// Returns the witness and whether a tampered block reached block processing.
+func syncAndJudge(k *mon.Case, a, b *node.Node, remote *p2p.AddrInfo, ev *evil, mode string, prefix, forkA, ahead, nv int, finA uint32, finalIDs map[uint32][]byte, origTip []byte, tag string) (map[string]any, bool) {
 	ctx, cancel := context.WithTimeout(context.Background(), 20*time.Second)
-	err = a.Conn.Connect(ctx, *remote)
+	err := a.Conn.Connect(ctx, *remote)
 	cancel()
 	if err != nil {
 		k.Inconclusive("connect:" + err.Error())
-		return
+		return nil, false
 	}
 	// B's tip arrives at A from that peer
 	tipB := node.CloneBlock(b.Tip())
 	perr := a.Exec.VerifProcess(context.Background(), tipB, remote.ID)
-	wit := map[string]any{"mode": mode, "prefix": prefix, "fork_a": forkA, "ahead_b": ahead, "validators": nv, "a_tip_after": a.Tip().Header.Height, "b_tip": b.Tip().Header.Height, "finalized_a": finA, "process_error": fmt.Sprint(perr)}
+	wit := map[string]any{"mode": mode, "prefix": prefix, "fork_a": forkA, "ahead_b": ahead, "validators": nv, "a_tip_after": a.Tip().Header.Height, "b_tip": b.Tip().Header.Height, "finalized_a": finA, "process_error": fmt.Sprint(perr), "phase": tag}
 	// finalized blocks of A never replaced
 	for h, id := range finalIDs {
 		hd, err := a.Chain.DataAccess().GetBlockHeaderByHeight(h)
 		if err != nil || !bytes.Equal(hd.ID, id) {
-			k.Violation("converge:finalized-block-replaced", "a block that was final on the syncing node was replaced or removed by sync", wit)
+			k.Violation("converge:finalized-block-replaced"+tag, "a block that was final on the syncing node was replaced or removed by sync", wit)
 			break
 		}
 	}
 	if a.Finalized() < finA {
-		k.Violation("converge:finalized-height-decreased", "finalized height decreased during sync", wit)
+		k.Violation("converge:finalized-height-decreased"+tag, "finalized height decreased during sync", wit)
 	}
-	shape := fmt.Sprintf("%s|forkA%d|ahead%d|fast%v", mode, forkA, ahead/3, ahead <= 2*nv)
-	switch mode {
-	case "honest":
+	shape := fmt.Sprintf("%s|forkA%d|ahead%d|fast%v%s", mode, forkA, ahead/3, ahead <= 2*nv, tag)
+	if mode == "honest" {
 		if !bytes.Equal(a.Tip().Header.ID, b.Tip().Header.ID) {
 			k.Violation("converge:honest-peer-not-followed", "node offered a better valid chain by an honest peer did not end on that chain", wit)
 		} else {
 			k.Count("converged", 1)
 			k.Nontrivial(shape)
 		}
-	default:
-		if ev.calls.Load() == 0 {
-			k.Inconclusive("evil-peer-not-asked")
-			return
-		}
-		k.Count("faulty_segments_served", 1)
-		if mode == "truncated" {
-			// a truncated segment is not invalid by itself; finalized blocks were re-read above
-			k.Nontrivial(shape)
-			break
-		}
-		// the statement speaks about downloaded blocks that PROVE INVALID: judged only if the
-		// tampered block reached block processing (the error is a processing error)
-		es := fmt.Sprint(perr)
-		processed := ev.tampered.Load() > 0 && (bytes.Contains([]byte(es), []byte("invalid signature")) || bytes.Contains([]byte(es), []byte("state root mismatch")))
-		if !processed {
-			k.Count("faulty_segment_not_processed(download failed or not fast sync)", 1)
-			break
-		}
-		k.Count("invalid_block_reached_processing", 1)
-		// every original block must be (back) on the chain
-		restored := true
-		if hd, err := a.Chain.DataAccess().GetBlockHeader(origTip); err != nil {
-			restored = false
-		} else if cur, err := a.Chain.DataAccess().GetBlockHeaderByHeight(hd.Height); err != nil || !bytes.Equal(cur.ID, origTip) {
-			restored = false
-		}
-		if !restored {
-			k.Violation("converge:original-chain-not-restored", "fast sync applied an invalid downloaded block but the node's original blocks are not on its chain afterwards", wit)
-		} else {
-			k.Count("restored_after_invalid_segment", 1)
-		}
-		banned := false
-		for _, ip := range a.Conn.VerifPeer().VerifGater().ListBanned() {
-			for _, ad := range remote.Addrs {
-				if bytes.Contains([]byte(ad.String()), []byte("/"+ip.String()+"/")) {
-					banned = true
-				}
+		return wit, false
+	}
+	if ev.calls.Load() == 0 {
+		k.Inconclusive("evil-peer-not-asked")
+		return wit, false
+	}
+	k.Count("faulty_segments_served", 1)
+	if mode == "truncated" {
+		// a truncated segment is not invalid by itself; finalized blocks were re-read above
+		k.Nontrivial(shape)
+		return wit, false
+	}
+	// the statement speaks about downloaded blocks that PROVE INVALID: judged only if the
+	// tampered block reached block processing (the error is a processing error)
+	// (fast sync hands every downloaded block to the processor only after the download
+	// completed, and the tampered block lies before the announced tip; a failing restore
+	// replaces the processing error, so the error text alone is not enough)
+	es := fmt.Sprint(perr)
+	fast := ahead <= 2*nv
+	processed := ev.tampered.Load() > 0 && perr != nil && ((fast && ev.servedTip.Load()) || bytes.Contains([]byte(es), []byte("invalid signature")) || bytes.Contains([]byte(es), []byte("state root mismatch")))
+	if !processed {
+		k.Count("faulty_segment_not_processed(download failed or not fast sync)", 1)
+		return wit, false
+	}
+	k.Count("invalid_block_reached_processing"+tag, 1)
+	// every original block must be (back) on the chain
+	restored := true
+	if hd, err := a.Chain.DataAccess().GetBlockHeader(origTip); err != nil {
+		restored = false
+	} else if cur, err := a.Chain.DataAccess().GetBlockHeaderByHeight(hd.Height); err != nil || !bytes.Equal(cur.ID, origTip) {
+		restored = false
+	}
+	if !restored {
+		k.Violation("converge:original-chain-not-restored"+tag, "fast sync applied an invalid downloaded block but the node's original blocks are not on its chain afterwards", wit)
+	} else {
+		k.Count("restored_after_invalid_segment", 1)
+	}
+	banned := false
+	for _, ip := range a.Conn.VerifPeer().VerifGater().ListBanned() {
+		for _, ad := range remote.Addrs {
+			if bytes.Contains([]byte(ad.String()), []byte("/"+ip.String()+"/")) {
+				banned = true
 			}
-		}
-		connected := false
-		for _, p := range a.Conn.ConnectedPeers() {
-			if p == remote.ID {
-				connected = true
-			}
-		}
-		wit["banned"], wit["still_connected"] = banned, connected
-		if !banned {
-			k.Violation("converge:peer-serving-invalid-blocks-not-banned", "the peer whose fast-sync blocks proved invalid was not banned", wit)
-		} else if connected {
-			k.Violation("converge:banned-peer-still-connected", "the peer whose fast-sync blocks proved invalid was banned but not disconnected", wit)
-		} else {
-			k.Nontrivial(shape)
 		}
 	}
-	k.Sample(wit)
+	connected := false
+	for _, p := range a.Conn.ConnectedPeers() {
+		if p == remote.ID {
+			connected = true
+		}
+	}
+	wit["banned"], wit["still_connected"] = banned, connected
+	if !banned {
+		k.Violation("converge:peer-serving-invalid-blocks-not-banned"+tag, "the peer whose fast-sync blocks proved invalid was not banned", wit)
+	} else if connected {
+		k.Violation("converge:banned-peer-still-connected"+tag, "the peer whose fast-sync blocks proved invalid was banned but not disconnected", wit)
+	} else {
+		k.Nontrivial(shape)
+	}
+	return wit, restored
 }
 
 var _ = sort.Ints
